@@ -550,6 +550,7 @@ inductive NetOp
   | enable (n i : Nat)
   | disable (n i : Nat)
   | power (n : Nat) (on : Bool)
+  | arpclear (n : Nat)
 
 /-- one operation at nesting budget `fuel`: the new state and the operation's result (`true` where there is none). -/
 def runOp (fuel : Nat) (st : St) : NetOp → St × Bool
@@ -559,6 +560,7 @@ def runOp (fuel : Nat) (st : St) : NetOp → St × Bool
   | .disable n i => (disableIface st n i, true)
   | .power n true => (powerOn fuel st n, true)
   | .power n false => (powerOff st n, true)
+  | .arpclear n => (st.modNode n (fun nd => { nd with arp := [] }), true)
 
 theorem runOp_mono1 (fuel : Nat) (st : St) (op : NetOp) :
     (runOp fuel st op).1.oof = true ∨ runOp (fuel + 1) st op = runOp fuel st op := by
@@ -570,6 +572,7 @@ theorem runOp_mono1 (fuel : Nat) (st : St) (op : NetOp) :
     · exact Or.inl h
     · right; simp only [runOp, h]
   | disable n i => exact Or.inr rfl
+  | arpclear n => exact Or.inr rfl
   | power n on =>
     cases on
     · exact Or.inr rfl
